@@ -270,7 +270,19 @@ class SR:
         return SR(mk_exp(self.e))
 
     def log(self):
-        return SR(mk_log(self.e))
+        # numpy semantics outside the domain: log of a negative number is NaN, log(0) is -inf (each a fork; decided without a new path when
+        # the harness assumed the argument positive)
+        na = getattr(ST.path, 'nassume', None)
+        if na:
+            # cheap entailment test against the input assumptions alone (a handful of mostly linear facts): the usual case, no fork
+            r, _ = ST.ex.solver_check(ST.path.pc[:na] + [self.e <= 0], want_model=False, timeout_ms=2000)
+            if r == 'unsat':
+                return SR(mk_log(self.e))
+        if ST.ex.decide(ST.path, self.e > 0):
+            return SR(mk_log(self.e))
+        if ST.ex.decide(ST.path, self.e == 0):
+            return float('-inf')
+        return float('nan')
 
     def sqrt(self):
         return SR(mk_sqrt(self.e))
@@ -1421,14 +1433,22 @@ def _sym_type(x):
     return t
 
 
-def _sym_float(v=0.0):
-    if isinstance(v, SW):
-        return SR(v.e)        # float(int64 scalar): leaves the fixed-width integer type
-    if _is_sym(v):
-        return v
-    if isinstance(v, np.ndarray) and v.dtype == object and v.size == 1 and _is_sym(v.flat[0]):
-        return v.flat[0]
-    return float(v)
+class _SymFloat:
+    """stands for the builtin `float` inside the modules under symbolic execution: float(symbolic) passes the value through instead of
+    concretising it; used as a dtype (x.astype(float), np.zeros(n, dtype=float)) it is float64 (numpy reads the `dtype` attribute)"""
+    dtype = np.dtype('float64')
+
+    def __call__(self, v=0.0):
+        if isinstance(v, SW):
+            return SR(v.e)        # float(int64 scalar): leaves the fixed-width integer type
+        if _is_sym(v):
+            return v
+        if isinstance(v, np.ndarray) and v.dtype == object and v.size == 1 and _is_sym(v.flat[0]):
+            return v.flat[0]
+        return float(v)
+
+
+_sym_float = _SymFloat()
 
 
 class patched:
